@@ -136,11 +136,11 @@ func ZZC01_breader_second_pass() {
 		alg = zzAlg()
 	}
 	d := digest.Digest(zzDigest("d", string(alg)))
-	S := zzInt("size", 0, 1+2*zzTier())
+	S := zzInt("size", 0, 1+zzTier())
 	src := &zzSymSeeker{}
 	br := NewReader(WithDesc(descriptor.Descriptor{Digest: d, Size: int64(S)}), WithReader(src))
 	var out []byte
-	K := 2 + zzTier()
+	K := 2
 	failed := false
 	for pass := 0; pass < 2; pass++ {
 		for k := 0; k < K; k++ {
